@@ -21,6 +21,12 @@ def main():
     a = ap.parse_args()
     prop = a.prop.upper()
     mod = importlib.import_module("props." + prop.lower())
+    if a.replay and "--seed" not in sys.argv and "VERIF_SEED" not in os.environ:
+        # replay files are named <id>-...-seed<N>.json: a replay that re-runs the check uses the seed that found it
+        import re
+        m = re.search(r"seed(\d+)\.json$", os.path.basename(a.replay))
+        if m:
+            a.seed = int(m.group(1))
     ctx = core.Ctx(prop, a.tier, a.seed)
     ctx.replay = None
     if a.replay:
@@ -28,7 +34,9 @@ def main():
             ctx.replay = json.load(f)
     code = 1
     try:
-        if ctx.replay is not None and hasattr(mod, "replay"):
+        single = ctx.replay is not None and isinstance(ctx.replay.get("input"), dict) and "history" in ctx.replay["input"]
+        if single and hasattr(mod, "replay"):
+            # one operation history: executed alone, judged by the property's trace predicates
             code = mod.replay(ctx)
         else:
             st = mod.run(ctx)
